@@ -67,7 +67,10 @@ type Closure struct {
 	env []value
 }
 
-type Builtin struct{ name string }
+type Builtin struct {
+	name string
+	data interface{} // engine-made callables (e.g. the swap function handed to the real sort code)
+}
 
 type BoundMethod struct { // interface method value
 	recv Iface
